@@ -74,3 +74,33 @@ HARNESS(h_div_kernel)
     CHECK(x == 0.0f ? q == 0.0f : ((q > 0.0f) == (x > 0.0f)), "sign kept");
     END;
 }
+
+/* accuracy on the coordinate axes, IEEE bit-precise: a vector with one non-zero component c (position K) has length |c| to
+   within 2 ulps.  RANGE 0: |c| < 2^-63 (c*c below 2*FLT_MIN or underflowing: the lengthTiny side of the dispatch),
+   RANGE 1: 2^-63 <= |c| <= 2^62 (the sqrt side). */
+#ifndef AXIS_K
+#define AXIS_K 0
+#endif
+#ifndef AXIS_RANGE
+#define AXIS_RANGE 0
+#endif
+#if defined(__CPROVER__) && defined(UF_DS)
+/* division and sqrt uninterpreted, constrained by three IEEE facts (exact operations): a/a == 1 and +0/a == +0 for finite non-zero a, sqrt(1) == 1 */
+#define AXIS_LEMMAS(a) if (a != 0) { ASSUME(__CPROVER_uninterpreted_fdiv_float(a, a) == 1.0f); ASSUME(f32_bits(__CPROVER_uninterpreted_fdiv_float(0.0f, a)) == 0); } \
+                       ASSUME(__CPROVER_uninterpreted_sqrtf(1.0f) == 1.0f);
+#else
+#define AXIS_LEMMAS(a)
+#endif
+#define AXIS(N)                                                                                            \
+    HARNESS(h_len_axis_##N)                                                                                \
+    {   IN(f32, c);                                                                                        \
+        f32 a = c < 0 ? -c : c; ASSUME(a == a);                                                            \
+        if (AXIS_RANGE == 0) ASSUME(a < 0x1p-63f); else ASSUME(a >= 0x1p-63f && a <= 0x1p62f);             \
+        f32 v[N]; for (int i = 0; i < N; i++) v[i] = (i == (AXIS_K < N ? AXIS_K : N - 1)) ? c : 0.0f;      \
+        AXIS_LEMMAS(a)                                                                                     \
+        f32 l = w_len##N##f((void*)v);                                                                     \
+        CHECK(l == l && l >= 0.0f && fin_f32(l), "length() is a finite non-negative number");              \
+        u32 bl = f32_bits(l), ba = f32_bits(a == 0 ? 0.0f : a);                                            \
+        CHECK((bl >= ba ? bl - ba : ba - bl) <= 2, "length() of an axis vector is |c| to within 2 ulps (squares that are subnormal or underflow included)"); \
+        END; }
+AXIS(2) AXIS(3) AXIS(4)
